@@ -540,6 +540,11 @@ def C14(tier, seed):
     res.violations += harness_crash_violations(h, "C14")
     res.add_stats(vlib.merge_stats(h["stats"]))
     res.violations += validate_stream(res, "Trace_Session", out, "c14session", "C14", also=("C13",))
+    # the systematic fault family: every allocating operation x every kind of host on either operand x every failing request
+    h = vlib.run_harness(vlib.build("asan"), ["session", "--mode", "chains", "--n", "1500" if tier == "thorough" else "60", "--seed", str(seed + 4), "--tier", tier], out, "c14chains", timeout=3000)
+    res.violations += harness_crash_violations(h, "C14")
+    res.add_stats(vlib.merge_stats(h["stats"]))
+    res.violations += validate_stream(res, "Trace_Session", out, "c14chains", "C14", also=("C13",))
     res.coverage["exhaustive"] = True
     res.coverage["exhaustive_note"] = "every failure position of every listed (operation, input) shape, both modes; the list of shapes is finite and fixed per tier"
     return res
